@@ -294,6 +294,30 @@ def _fail(ctx, sig, what, inp, impl_out, model_out, clauses):
         ctx.fail(sig, what, inp, impl_out, model_out, clauses)
 
 
+def directed_config(impl, A, B, P):
+    """Is `is_directed=True` documented to mean the same minor arc for this input?  Decided exactly on the integers.
+
+    The directed mode walks the longitudes from v0 to v1.  It means the minor arc (and must answer like the default
+    mode) when the arc is not a meridian / through-a-pole / pole-ended arc (those have their own, unclear, directed
+    rules), no point is in the pole-snap zone, no end point lies exactly on longitude 0 or 180, and either
+      * "plain": the longitudes of the end points (in [0, 2pi)) differ by less than pi – the arc does not cross
+        longitude 0, either order of the end points; or
+      * "eastward-across-prime-meridian": v0 west of longitude 0 (lon0 > pi), v1 east of it (lon1 < pi), eastward span < pi.
+    The opposite order of a prime-meridian-crossing arc is documented to raise ValueError ("span larger than 180"):
+    "westward-across-prime-meridian", kept out.  Longitude differences within 1e-6 of 0 or pi are kept out as well."""
+    if arc_class(A, B) in ("pole-endpoint", "through-pole", "meridian") or impl.snapped(A, B, P):
+        return "excluded-polar-or-meridian"
+    if A[1] == 0 or B[1] == 0 or (P[0] == 0 and P[1] == 0):
+        return "excluded-on-lon-0-or-180"
+    nz = A[0] * B[1] - A[1] * B[0]  # > 0: v1 is east of v0 by less than pi
+    if nz * nz * 10**12 < (A[0] ** 2 + A[1] ** 2) * (B[0] ** 2 + B[1] ** 2):
+        return "excluded-lon-difference-near-0-or-pi"
+    crosses0 = (A[1] < 0 < B[1] and nz > 0) or (B[1] < 0 < A[1] and nz < 0)  # minor arc crosses longitude 0
+    if not crosses0:
+        return "plain"
+    return "eastward-across-prime-meridian" if nz > 0 else "westward-across-prime-meridian"
+
+
 def judge_onarc(ctx, impl, a, b, p, tag, k=None):
     d = ctx.driver
     valid, exact, cls, margin = (int(x) for x in d.ask("C14.onarc", *_v(a), *_v(b), *_v(p)).split())
@@ -310,13 +334,35 @@ def judge_onarc(ctx, impl, a, b, p, tag, k=None):
     ctx.hit(f"onarc:arc={ac}")
     ctx.hit(f"onarc:query={qc}")
     k = tuple(k) if k else ctx.rng.choice(PYTH)
-    for name, A, B, P in (("as-given", a, b, p), ("ends-swapped", b, a, p), ("rotated-about-z", rotz(a, k), rotz(b, k), rotz(p, k))):
+    variants = [("as-given", a, b, p), ("ends-swapped", b, a, p), ("rotated-about-z", rotz(a, k), rotz(b, k), rotz(p, k))]
+    # option dimension is_directed: only where the documented directed semantics coincide with the minor arc
+    calls = [(n, A, B, P, False) for n, A, B, P in variants]
+    for n, A, B, P in variants:
+        cfg = directed_config(impl, A, B, P)
+        ctx.hit(f"onarc:is_directed:{cfg}")
+        if cfg in ("plain", "eastward-across-prime-meridian"):
+            calls.append((n + ", is_directed=True", A, B, P, True))
+    for name, A, B, P, directed in calls:
         impl.cur = (ctx, dict(inp, variant=name, rot=list(k)))
         try:
-            got = bool(impl.point_within_gca(np.array(fl(P)), np.array([fl(A), fl(B)])))
+            if directed:
+                got = bool(impl.point_within_gca(np.array(fl(P)), np.array([fl(A), fl(B)]), is_directed=True))
+            else:
+                got = bool(impl.point_within_gca(np.array(fl(P)), np.array([fl(A), fl(B)])))
         except Exception as e:  # noqa: BLE001
             got = f"raises {type(e).__name__}: {e}"[:120]
         if got == bool(exact):
+            continue
+        if directed:
+            vac = arc_class(A, B) + "/" + directed_config(impl, A, B, P)
+            if exact and got is False and impl.plane_residual(A, B, P) > impl.eps:
+                sig = "C14/point_within_gca/on-arc-rejected/plane-residual>MACHINE_EPSILON"
+            else:
+                kind = "raises" if isinstance(got, str) else "on-arc-rejected" if exact else f"{qc}-accepted"
+                sig = f"C14/point_within_gca[is_directed=True]/{kind}/arc={vac}"
+            _fail(ctx, sig, f"point_within_gca(..., is_directed=True) answers {got!r} for a minor arc given in a direction for which the directed "
+                  f"semantics are the minor arc; the exact membership (and the default mode) is {bool(exact)} ({qc} query, {vac}, {name})",
+                  dict(inp, variant=name, rot=list(k)), got, bool(exact), ["onArc_exact"])
             continue
         vac = arc_class(A, B) + ("+pole-snapped-point" if impl.snapped(A, B, P) else "")
         if exact and got is False and impl.plane_residual(A, B, P) > impl.eps:
@@ -669,6 +715,9 @@ def run(ctx):
         "the implementation receives the correctly rounded doubles of the exact rational unit vectors; IEEE evaluation inside it is not modelled",
         "latitude values are compared with ERROR_TOLERANCE (1e-8 rad) or 4 ulp of sin(latitude), whichever is weaker",
         "the parallel (same great circle) branch of gca_gca_intersection is outside the property and not exercised",
+        "is_directed=True is judged (same exact membership) only where the documented directed semantics are the minor arc: plain arcs and "
+        "arcs given eastwards across longitude 0; kept out: the order documented to raise ValueError, meridian / through-a-pole / "
+        "pole-ended arcs (directed rules unclear), points in the pole-snap zone, end points exactly on longitude 0 or 180",
         "the Lean primitives are functions (session_state_const, session_answers); that the implementation behaves like a function of the "
         "values is tied by the byte comparison of every argument and by the shared-object call sequences; float32 arguments are only noted",
     ]
